@@ -37,7 +37,9 @@ PROPS["C06"] = {
 }
 
 WALK_RULE = ("positions visited by (a) exhaustive descents to a fixed depth from 40 seed FENs (perft suite, en-passant pins, castling through attack, "
-             "promotions, double checks, locked positions), (b) random games with move-kind bias (castling / en passant / promotion / capture), nested take-backs, "
+             "promotions, double checks, locked positions), (a') two structured families in both colours: the castling set-up with one extra enemy piece of every kind on every free square "
+             "(castling out of / through / into every kind of attack) and an en-passant capture on every file with one or two capturers, the king safe, on the capture rank facing a rook or queen, "
+             "behind a bishop-pinned victim, or with the capturer pinned on its file, (b) random games with move-kind bias (castling / en passant / promotion / capture), nested take-backs, "
              "deliberate shuffles that repeat positions, and continuation from a FEN reload, (c) the minimised corpus; one observation block per position "
              "(full state dump, pseudo-legal list in generation order, legal list, check flags, attacked-square sets, from-scratch / reload keys, evaluation and its mirror / "
              "swapped twins, periodic single-component perturbations). distinct_nontrivial = number of distinct positions by (placement, side, rights, ep file), counted by the driver")
@@ -132,23 +134,27 @@ PROPS["C13"] = {
 PROPS["C11"] = {
     "module": "RCE.Props.C11",
     "theorems": ["RCE.Props.C11.ab_eq_negamax", "RCE.Props.C11.ref_root_value_eq", "RCE.Props.C11.ref_root_move_value_eq"],
-    "streams": {"quick": [SO_Q, dict(S("search-mateoff", "mateoff", 160, 4), driver="search:0")], "thorough": [SO_T, dict(S("search-mateoff", "mateoff", 3200, 5), driver="search:0")]},
+    "streams": {"quick": [SO_Q, dict(S("search-mateoff", "mateoff", 160, 4), driver="search:0"), dict(S("search-promo", "promo", 1000, 3), driver="search:0")],
+                "thorough": [SO_T, dict(S("search-mateoff", "mateoff", 3200, 5), driver="search:0"), dict(S("search-promo", "promo", 24000, 4), driver="search:0")]},
     "eval_key": "cases", "distinct_key": "distinct_cases",
     "rule": SEARCH_RULE + "; for C11: cache neutralised by the hook, no limits; the root score read from info.best_score and the value of the chosen move are compared with a reference "
             "minimax (textbook fail-soft alpha-beta, no ordering heuristics beyond a static capture sort, no cache, no null windows) over the model's game, and for small depths with the "
-            "same reference over the independent rules spec (own evaluation, own repetition record)",
+            "same reference over the independent rules spec (own evaluation, own repetition record); extra position families: mate-rich mined positions, and promotion-rich unbalanced positions "
+            "(far-advanced pawns next to capturable pieces: capture-promotions inside quiescence)",
     "assumptions": ["EvalBoundedFrom: evaluations in the tree are within +-32511 (true for any position with realistic material)"],
 }
 
 PROPS["C16"] = {
     "module": "RCE.Props.C16",
     "theorems": ["RCE.Props.C16.search_clock_indep"],
-    "streams": {"quick": [S("search-plain", "plain", 48, 3, extra=["--repeat", 3]), S("search-deep", "deep", 2, 7, shards=2)],
+    "streams": {"quick": [S("search-plain", "plain", 48, 3, extra=["--repeat", 3]), S("search-deep", "deep", 2, 7, shards=2),
+                          dict(S("search-xcheck", "xcheck", 2400, 4, extra=["--repeat", 2]), driver="search:0")],
                 "thorough": [S("search-plain", "plain", 400, 4, extra=["--repeat", 3]), S("search-deep", "deep", 4, 7, shards=4, extra=["--repeat", 3]),
+                             dict(S("search-xcheck", "xcheck", 40000, 5, extra=["--repeat", 2]), driver="search:0"),
                              {"name": "search-bench", "stream": "search", "driver": "search:0", "shards": 16, "args": ["--mode", "file", "--cases", "work/bench_cases.txt"]}]},
     "eval_key": "cases", "distinct_key": "distinct_cases",
     "rule": SEARCH_RULE + "; thorough: the 62 bench positions to bench::MAXDEPTH in-process, node counts and every cache write equal to the model's (the bench node total is their sum); for C16: every case is run three times in one process from a fresh cache and all outputs (info lines, bestmove, every cache insert, counters, cache checksum) "
-            "must be identical to each other and to the model's single prediction; the process-level part runs the real binary in separate processes, under 16-way CPU load, and the bench subcommand twice",
+            "must be identical to each other and to the model's single prediction; 2400 (thorough 40000) random open positions with several queens (checks answered by checks, extensions far beyond the nominal depth) are each searched twice in a row in one thread and compared with themselves; the process-level part runs the real binary in separate processes, under 16-way CPU load, and the bench subcommand twice",
     "assumptions": [],
 }
 
@@ -160,7 +166,10 @@ PROPS["C09"] = {
     "eval_key": "cases", "distinct_key": "distinct_cases",
     "rule": SEARCH_RULE + "; for C09: exactly one bestmove line per search, the move must be legal in the rules spec's position, no panic of the search, under every node budget and stop point "
             "(incl. budgets 1 and 2 where the first iteration is interrupted and the fallback move is used); the process-level part drives the real binary with limit mixes "
-            "(depth, nodes, movetime 0/1/50, wtime/btime/winc/binc incl. 0) and consecutive go commands and checks count, legality and latency of bestmove and readyok afterwards",
+            "(depth, nodes, movetime 0/1/50, wtime/btime/winc/binc incl. 0, and mixes where only the mover's OWN clock is short while the opponent's clock and increment are large) and consecutive go commands, "
+            "for both colours to move, and checks count, legality and latency of bestmove (time budget = movetime, and for clock limits the mover's own time + increment, + 0.6 s) and readyok afterwards; "
+            "in-process clock cases run on a virtual clock (equal clocks, asymmetric clocks / increments, movetime) and the allowance the engine gives itself must not exceed the mover's own clock + increment; "
+            "roots with a single legal move and roots without moves are among the cases",
     "assumptions": ["wall-clock latency is measured on the real binary only (PARTIAL for the timing clause: the model cannot exhibit how long a node takes)"],
 }
 
